@@ -87,6 +87,7 @@ class Sched(object):
         self.log_enabled = False   # put ("-","enabled",[names]) into the event stream before each step
         self.context_switches = 0
         self.step_timeout = 30.0
+        self.start_gate = None     # foreground threads start only once this returns true (e.g. timers enabled)
         self._last = None
 
     # ---- naming --------------------------------------------------------------------------------
@@ -166,6 +167,8 @@ class Sched(object):
     def is_enabled(self, vt):
         op = vt.pending
         k = op[0]
+        if k == "start":
+            return vt.background or self.start_gate is None or bool(self.start_gate())
         if k == "acq":
             return not op[1].held
         if k == "sleep" or k == "until":
@@ -631,6 +634,7 @@ def start_timers(sched, name="timers"):
         till.daemon(please_stop)
 
     vt = sched.spawn(name, body, background=True, timekeeper=True)
+    sched.start_gate = lambda: bool(raw(till.enabled, "_go"))   # as start_main_thread() waits for till.enabled
     return please_stop, vt
 
 
